@@ -169,9 +169,9 @@ def case_solve(ctx, rng):
 
 
 def run(ctx):
-    for _, rng in ctx.cases("svd-norm", ctx.n(4000, 80000)):
+    for _, rng in ctx.cases("svd-norm", ctx.budget(180000, 3000000)):
         ctx.run_case(case_svd_norm, ctx, rng)
-    for _, rng in ctx.cases("eigh", ctx.n(1200, 15000)):
+    for _, rng in ctx.cases("eigh", ctx.budget(50000, 900000)):
         ctx.run_case(case_eigh, ctx, rng)
-    for _, rng in ctx.cases("solve", ctx.n(1500, 15000)):
+    for _, rng in ctx.cases("solve", ctx.budget(65000, 1200000)):
         ctx.run_case(case_solve, ctx, rng)
